@@ -1396,8 +1396,12 @@ class Stage:
                 subst_to.append(ret.t)
             else:
                 subst_to.append(MX.sym(k.name(), k.sparsity()))
-        for k_old, k_new in zip(subst_from, subst_to):
-            ret._placeholders[k_new] = self._placeholders[k_old]
+        # the expressions held by the placeholders (integrands, at_t0/at_tf arguments, ...) refer to the
+        # template's placeholder symbols as well
+        payloads = substitute([MX(self._placeholders[k][1]) for k in subst_from], subst_from, subst_to) if subst_from else []
+        for k_old, k_new, payload in zip(subst_from, subst_to, payloads):
+            species, _, p_args, p_kwargs = self._placeholders[k_old]
+            ret._placeholders[k_new] = (species, payload, p_args, p_kwargs)
 
         ret.states = copy(self.states)
         ret.controls = copy(self.controls)
@@ -1407,10 +1411,18 @@ class Stage:
 
         ret._offsets = deepcopy(self._offsets)
         ret._param_vals = copy(self._param_vals)
-        ret._state_der = copy(self._state_der)
+        # right-hand sides may depend on the template's time/horizon placeholders
+        def subst_values(d):
+            r = copy(d)
+            keys = list(d.keys())
+            if keys:
+                for k, v in zip(keys, substitute([MX(d[k]) for k in keys], subst_from, subst_to)):
+                    r[k] = v
+            return r
+        ret._state_der = subst_values(self._state_der)
         ret._scale_der = copy(self._scale_der)
-        ret._alg = copy(self._alg)
-        ret._state_next = copy(self._state_next)
+        ret._alg = substitute([MX(e) for e in self._alg], subst_from, subst_to) if self._alg else []
+        ret._state_next = subst_values(self._state_next)
         constr_types = self._constraints.keys()
         orig = []
         for k in constr_types:
